@@ -29,4 +29,4 @@ package safeprime
 //@   ensures fail: err != nil ==> result0 == nil
 //@   modifies nothing
 //@   loop 0 invariant one != nil && two != nil && twoq != nil && twoqone != nil && twoexptwoq != nil && q != nil && bigMod != nil && fresh(one) && fresh(two) && fresh(twoq) && fresh(twoqone) && fresh(twoexptwoq) && fresh(q) && fresh(bigMod) && fresh(bytes) && len(bytes) >= 1 && val(one) == 1 && val(two) == 2
-//@   loop 0 modifies elems(bytes), onlyfresh("BV")
+//@   loop 0 modifies elems(bytes), funcfresh("BV")
